@@ -173,18 +173,42 @@ def _shape_of(x):
     return () if isinstance(x, (SR, SB)) or _np.isscalar(x) else _A(x).shape
 
 
+def _int_like(a, dtype):
+    """numpy's *_like inherit the dtype: an integer-typed prototype gives an integer array, and values stored into
+    it are truncated.  Modelled by an object array whose stores truncate (sym.IntSymArray)."""
+    if dtype is not None or isinstance(a, (SR, SB)):
+        return False
+    try:
+        return _np.asarray(a).dtype.kind in "iu"
+    except Exception:
+        return False
+
+
+def _as_int_like(r, fill=None):
+    o = _np.empty(r.shape, dtype=object)
+    if fill is not None:
+        o.fill(fill)
+    return o.view(sym.IntSymArray)
+
+
 @override("empty_like")
 def empty_like(a, dtype=None, **kw):
+    if _int_like(a, dtype):
+        return _as_int_like(_np.asarray(a), 0)
     return empty(_shape_of(a), dtype=dtype)
 
 
 @override("zeros_like")
 def zeros_like(a, dtype=None, **kw):
+    if _int_like(a, dtype):
+        return _as_int_like(_np.asarray(a), 0)
     return zeros(_shape_of(a), dtype=dtype)
 
 
 @override("ones_like")
 def ones_like(a, dtype=None, **kw):
+    if _int_like(a, dtype):
+        return _as_int_like(_np.asarray(a), 1)
     return ones(_shape_of(a), dtype=dtype)
 
 
